@@ -80,13 +80,18 @@ def value_table():
         if f and f['enum']:
             cands += f['enum'][:2]
         cands += ['2', 'b', '3.5'] + INVALID_CANDS
-        for c in cands:
+        cands_falsy = ['0', '']
+        for c in cands + cands_falsy:
             idx.append((at, c))
             docs.append('<%s>%s</%s>' % (lexical_name(at), c.replace('&', '&amp;').replace('<', '&lt;'), lexical_name(at)))
     res = jdk.validate(docs, 'lexical.xsd')
     table = {}
     for (at, c), (ok, codes, msg) in zip(idx, res):
-        d = table.setdefault(at, {'valid': None, 'valid2': None, 'invalid': None})
+        d = table.setdefault(at, {'valid': None, 'valid2': None, 'invalid': None, 'falsy': None})
+        if ok and c in ('0', '') and d['falsy'] is None:
+            d['falsy'] = c
+        if ok and c == '':
+            continue
         if ok:
             if d['valid'] is None:
                 d['valid'] = c
@@ -153,6 +158,12 @@ def work(arg):
                     docs_roots(at) and docs_roots(at) <= {'xs:integer', 'xs:nonNegativeInteger', 'xs:positiveInteger'}:
                 # the float twin of a valid integer is not a value of an integer type (offered AFTER the integer)
                 values.append(('float-twin', float(values[0][1]), None))
+            if tv.get('falsy') is not None and an in declared:
+                # a valid value that is falsy in Python (0, 0.0, ''): still a value, must be stored and serialised
+                fv = py_value(at, tv['falsy'])
+                values.append(('valid', fv, tv['falsy']))
+                if isinstance(fv, int) and not isinstance(fv, bool) and 'xs:decimal' in (docs_roots(at) or set()):
+                    values.append(('valid', float(fv), None))
             values.append(('wrong-type', ['x'], None))
             values.append(('none', None, None))
             for vclass, pv, lex in values:
@@ -171,7 +182,7 @@ def work(arg):
                             o = impl.call(setattr, el, pyname, pv)
                         else:
                             o = impl.call(parser_setattr, el, an, lex)
-                    key = [name, an, vclass, surface]
+                    key = [name, an, vclass if not (vclass == 'valid' and (pv == 0 or pv == '')) else 'valid-falsy:%r' % (pv,), surface]
                     if expect_ok and not o.ok:
                         if vclass == 'none' and an not in declared:
                             continue   # removing an undeclared name may be refused or ignored: not stated
